@@ -86,10 +86,10 @@ fn c09_slider_accepts_exactly_fitting() {
     kani::assume(pos.checked_add(len).is_some());
     let r = s.set_position_and_len(pos.into(), len);
     let fits = len == 0 || pos as u64 + len as u64 <= 4;
-    assert!(r.is_ok() == fits, "C09/C04: exactly the fitting intervals are accepted");
+    kani::assert(r.is_ok() == fits, "C09/C04: exactly the fitting intervals are accepted");
     if r.is_ok() {
-        assert!(usize::from(s.position()) == pos as usize, "C09: position set");
-        assert!(s.subtrace_len() == len, "C09: len set");
+        kani::assert(usize::from(s.position()) == pos as usize, "C09: position set");
+        kani::assert(s.subtrace_len() == len, "C09: len set");
     }
     kani::cover!(r.is_ok() && len == 4, "whole trace accepted");
     kani::cover!(r.is_err(), "rejected");
@@ -116,7 +116,7 @@ fn interval_body(twin: bool) {
             let before: u32 = usize::from(s.position()) as u32;
             match s.next_state() {
                 Some(st) => {
-                    assert!(before == pos + handed, "C09: entries are handed out in order, none skipped");
+                    kani::assert(before == pos + handed, "C09: entries are handed out in order, none skipped");
                     handed += 1;
                     std::mem::forget(st);
                 }
@@ -124,13 +124,13 @@ fn interval_body(twin: bool) {
             }
             i += 1;
         }
-        assert!(handed == len, "C09: exactly the interval is handed out, then None");
-        assert!(s.subtrace_len() == 0, "C09: nothing left in a consumed interval");
-        assert!(s.next_state().is_none(), "C07: a consumed interval stays consumed");
+        kani::assert(handed == len, "C09: exactly the interval is handed out, then None");
+        kani::assert(s.subtrace_len() == 0, "C09: nothing left in a consumed interval");
+        kani::assert(s.next_state().is_none(), "C07: a consumed interval stays consumed");
         kani::cover!(handed == 4, "whole trace consumed");
         kani::cover!(handed == 0, "empty interval");
         if twin {
-            assert!(false, "vacuity twin");
+            kani::assert(false, "vacuity twin");
         }
     }
     std::mem::forget(r);
